@@ -257,13 +257,13 @@ def tr_same(ta, tb, tol):
         return True
     if ta["deg"] != tb["deg"] or ta["m2a"] != tb["m2a"]:
         return None
-    if any(abs(x - y) >= tol for x, y in zip(ta["disp"], tb["disp"])):
+    if any(not _within(x, y, tol) for x, y in zip(ta["disp"], tb["disp"])):
         return False
     ra = ta["rot"] or [Fraction(v) for v in IDENT[ta["deg"]]]
     rb = tb["rot"] or [Fraction(v) for v in IDENT[tb["deg"]]]
     if len(ra) != len(rb):
         return None
-    return all(abs(x - y) < tol for x, y in zip(ra, rb))
+    return all(_within(x, y, tol) for x, y in zip(ra, rb))
 
 
 def true_duplicate(sa, sb, trs, tol):
@@ -280,9 +280,15 @@ def true_duplicate(sa, sb, trs, tol):
     tb = trs.get(pb) if pb is not None and pb > 0 else None
     if tr_same(ta, tb, tol) is False:
         why.append("transform")
-    if len(sa["values"]) != len(sb["values"]) or any(abs(x - y) >= tol for x, y in zip(sa["values"], sb["values"])):
+    if len(sa["values"]) != len(sb["values"]) or any(not _within(x, y, tol) for x, y in zip(sa["values"], sb["values"])):
         why.append("constants")
     return why
+
+
+def _within(x, y, tol):
+    """|x - y| < tol, exactly or as the doubles the code subtracts (a difference that only rounding brings under the
+    tolerance is not held against the code)"""
+    return abs(x - y) < tol or abs(float(x) - float(y)) < float(tol) or abs(float(y) - float(x)) < float(tol)
 
 
 def ast_of_walk(toks):
@@ -320,6 +326,12 @@ def oracle(case, before_text, before, after_text, after, mmap, tol):
     fails = []
     tolq = Fraction(float(tol))
     B = spec_view(before_text)
+    # pointers as the live objects had them at the call (a deleted / reassigned transform or periodic surface is not
+    # reliably visible in a file written before the call: that is the writer's business, not this property's)
+    for n, sv in B["surfs"].items():
+        if n in before["ptrs"]:
+            per, tr = before["ptrs"][n]
+            sv["pointer"] = -per if per else (tr if tr else None)
     ren = dict(mmap or [])
     removed = [n for n in before["surfs"] if n not in after["surfs"]]
     # (0) what was removed is what the map says, and nothing appeared
@@ -329,8 +341,8 @@ def oracle(case, before_text, before, after_text, after, mmap, tol):
     for d, s in ren.items():
         if d in B["surfs"] and s in B["surfs"]:
             why = true_duplicate(B["surfs"][s], B["surfs"][d], B["trs"], tolq)
-            if why:
-                fails.append(("not-a-duplicate", {"dead": d, "survivor": s, "differs_in": why}))
+            for w in why:
+                fails.append(("not-a-duplicate:" + w, {"dead": d, "survivor": s, "differs_in": why}))
     # (2) live objects: same tree shape and senses, leaves renamed by the map; untouched if no removed leaf
     for cn, wb in before["cells"].items():
         wa = after["cells"].get(cn)
@@ -387,6 +399,8 @@ def oracle(case, before_text, before, after_text, after, mmap, tol):
             if pa is not None and pa < 0 and -pa not in A["order"]:
                 fails.append(("file-dangling-periodic", {"surface": n, "periodic": -pa}))
             same_ptr = pa == pb or (pb is not None and pb < 0 and pa is not None and ren.get(-pb) == -pa)
+            if any(p[0] in ("set_tr", "del_tr", "set_per", "del_per") for p in case.get("pre", [])):
+                same_ptr = True     # how an edited pointer is written is the writer's business; (3) looked at the objects
             if (sa["mnemonic"], sa["modifier"]) != (sb["mnemonic"], sb["modifier"]) or not same_ptr \
                     or sa["values"] != sb["values"]:
                 fails.append(("file-survivor-changed", {"surface": n,
@@ -417,6 +431,37 @@ def float_rounding_decides(pr, tol):
     return False
 
 
+def match_relation(pr, tol):
+    """{number: [numbers its find_duplicate_surfaces returns]} before the call (measurement only)"""
+    rel = {}
+    ss = list(pr.surfaces)
+    for x in ss:
+        try:
+            rel[x.number] = [m.number for m in x.find_duplicate_surfaces(pr.surfaces, tol)]
+        except Exception:       # noqa: BLE001
+            rel[x.number] = None
+    return rel
+
+
+def relation_shape(rel, mmap):
+    """what kind of family structure the case has: a dead surface found by two survivors (its map entry is
+    overwritten), an open chain a~b~c without a~c, an asymmetric pair"""
+    dead = {k for k, _ in (mmap or [])}
+    finders = {}
+    asym = chain = False
+    for a, ms in rel.items():
+        for b in ms or []:
+            if a not in dead:
+                finders.setdefault(b, set()).add(a)
+            if rel.get(b) is not None and a not in rel[b]:
+                asym = True
+            for c in rel.get(b) or []:
+                if c != a and c not in ms:
+                    chain = True
+    return {"overwritten": any(len(v) > 1 for v in finders.values()), "chain": chain, "asymmetric": asym,
+            "survivor_removed": bool(dead & {v for _, v in (mmap or [])})}
+
+
 def run_case(case, want_text=True):
     """-> dict(skip=why) or dict(request, real, before, after, fails, rounding, ...)"""
     tol = float.fromhex(case["tol"])
@@ -437,12 +482,13 @@ def run_case(case, want_text=True):
         return {"skip": "outside-model-assumptions"}
     req = request_of(pr, tol)
     rounding = float_rounding_decides(pr, tol)
+    rel = match_relation(pr, tol)
     exc, mmap = call_dedup(pr, tol)
     real = real_response(pr, exc, mmap)
     out = {"request": req, "real": real, "before": before, "exc": exc, "map": mmap, "rounding": rounding,
-           "fails": [], "before_text": before_text}
+           "fails": [], "before_text": before_text, "shape": relation_shape(rel, mmap)}
     if exc is not None:
-        out["fails"].append(("exception", exc))
+        out["fails"].append(("exception:" + exc, exc))
         return out
     after = snapshot(pr)
     after_text = None
@@ -698,12 +744,13 @@ def failure_kinds(case):
 
 
 # ============================================================================ replay / run
-def load_case(path):
+def load_case(path, with_kind=False):
     with open(path) as fh:
         c = json.load(fh)
+    kind = c.get("kind")
     c = c.get("case", c)
     c["pre"] = [list(p) for p in c.get("pre", [])]
-    return c
+    return (c, kind) if with_kind else c
 
 
 def corr_mismatch(r, ans):
@@ -715,14 +762,15 @@ def corr_mismatch(r, ans):
 
 
 def replay(ctx, path):
-    c = load_case(path)
+    c, kind = load_case(path, with_kind=True)
     r = run_case(c)
     bad = None
     if "skip" in r:
         print("REPLAY property=C18 case skipped: " + r["skip"])
     else:
-        if r["fails"]:
-            bad = ("oracle", r["fails"][:3])
+        mine = [f for f in r["fails"] if kind is None or f[0] == kind]     # the recorded failure class, if any
+        if mine:
+            bad = ("oracle", mine[:3])
         else:
             vlib.coq_make(["Model/Dedup.vo"])
             ans = vlib.model_ask(MODEL, [r["request"]])[0]
@@ -759,7 +807,7 @@ def run(ctx):
     for i in range(n_cases):
         cases.append(gen_case(random.Random(f"{ctx.seed}:C18:{i}")))
     dist = {"cases": 0, "corpus": len(corpus), "skipped": {}, "tol": {}, "with_pre": 0, "pre_ops": {},
-            "merged_pairs": 0, "cases_with_merge": 0, "map_overwritten_or_chain": 0, "exceptions": {},
+            "merged_pairs": 0, "cases_with_merge": 0, "family_shapes": {}, "exceptions": {},
             "surfaces": 0, "cells": 0, "transforms": 0, "leaves": 0, "rounding_decides": 0,
             "cell_surfaces_emptied": 0, "oracle_failure_kinds": {}, "cells_repointed": 0,
             "surviving_shared_by_2plus_cells": 0}
@@ -779,6 +827,7 @@ def run(ctx):
         ctx.broken_obligations.append({"obligation": "extraction cross-check Dedup", "detail": bad[:2]})
     corr_bad = []
     n_viol = 0
+    n_shrunk = 0
     for (c, r), ans in zip(results, answers):
         ctx.cov["programs"] += 1
         tol = float.fromhex(c["tol"])
@@ -803,8 +852,6 @@ def run(ctx):
                 not a["cell_surfs"][cn] and any(t[0] in "pm" for t in a["cells"][cn]) for cn in a["cells"])
             dist["cells_repointed"] += sum(1 for cn in a["cells"] if a["cells"][cn] != b["cells"].get(cn))
             vals = [v for _, v in (r["map"] or [])]
-            if set(vals) & {k for k, _ in (r["map"] or [])}:
-                dist["map_overwritten_or_chain"] += 1
             for s in set(vals):
                 if sum(1 for cn in a["cells"] if ("p%d" % s) in a["cells"][cn] or ("m%d" % s) in a["cells"][cn]) >= 2:
                     dist["surviving_shared_by_2plus_cells"] += 1
@@ -813,17 +860,28 @@ def run(ctx):
         mm = corr_mismatch(r, ans)
         if mm:
             corr_bad.append({"case": c, "mismatch": mm})
-        if r["fails"] and n_viol < 3:
-            for k in {f[0] for f in r["fails"]}:
-                dist["oracle_failure_kinds"][k] = dist["oracle_failure_kinds"].get(k, 0) + 1
-            kinds = sorted({f[0] for f in r["fails"]})
-            rec = {"kind": kinds[0], "kinds": kinds, "case": c, "detail": [list(map(str, f)) for f in r["fails"][:4]]}
-            if ctx.attribute(rec) is None:
-                small = shrink(c, lambda cc: kinds[0] in failure_kinds(cc))
+        for k, v in r["shape"].items():
+            dist["family_shapes"][k] = dist["family_shapes"].get(k, 0) + bool(v)
+        classes = {}
+        for f in r["fails"]:
+            classes.setdefault(f[0], []).append(f[1])
+        for k in sorted(classes):
+            dist["oracle_failure_kinds"][k] = dist["oracle_failure_kinds"].get(k, 0) + 1
+            rec = {"kind": k, "case": c, "detail": [str(d)[:400] for d in classes[k][:3]]}
+            fid = ctx.attribute(rec)
+            if fid:
+                ctx.filtered[fid] = ctx.filtered.get(fid, 0) + 1
+                continue
+            if n_viol >= 8:
+                dist["violations_not_recorded"] = dist.get("violations_not_recorded", 0) + 1
+                continue
+            if n_shrunk < 3:
+                n_shrunk += 1
+                small = shrink(c, lambda cc, k=k: k in failure_kinds(cc)
+                               and ctx.attribute({"kind": k, "case": cc}) is None)
                 r2 = run_case(small)
-                kinds2 = sorted({f[0] for f in r2.get("fails", [])}) or kinds
-                rec = {"kind": kinds[0], "kinds": kinds2, "case": small,
-                       "detail": [list(map(str, f)) for f in r2.get("fails", r["fails"])[:4]]}
+                rec = {"kind": k, "case": small,
+                       "detail": [str(f[1])[:400] for f in r2.get("fails", []) if f[0] == k][:3]}
             if ctx.fail(rec):
                 n_viol += 1
         if len(ctx.cov["samples"]) < 4 and nm > 0:
